@@ -76,9 +76,15 @@ Definition rust_f64_to_string (x : f64) : bytes :=
   end.
 
 (** [LuaValue::string_coercion] *)
+(** folds only finite numbers that are zero or whose magnitude lies in [1e-4, 1e14) *)
+Definition f_1em4 : f64 := of_bits 4547007122018943789.    (* 1e-4 *)
+Definition f_1e14 : f64 := of_bits 4816244402031689728.    (* 1e14 *)
+Definition plain_decimal_range (x : f64) : bool :=
+  is_finite x && (feqb x fzero || (fleb f_1em4 (fabs x) && fltb (fabs x) f_1e14)).
+
 Definition string_coercion (v : lv) : lv :=
   match v with
-  | LNumber x => LString (rust_f64_to_string x)
+  | LNumber x => if plain_decimal_range x then LString (rust_f64_to_string x) else v
   | _ => v
   end.
 
@@ -337,7 +343,11 @@ Fixpoint has_side_effects (e : expr) : bool :=
                        end) entries
   | ECall _ _ _ => true
   | EInterp segs =>
-    existsb (fun s => match s with ISStr _ => false | ISExpr e' => has_side_effects e' end) segs
+    existsb (fun s => match s with
+                      | ISStr _ => false
+                      | ISExpr e' => has_side_effects e'
+                                     || (negb pure_metamethods && maybe_metatable (evaluate e'))
+                      end) segs
   | ETypeCast e' _ => has_side_effects e'
   | ETypeInst p _ => has_side_effects p
   end.
